@@ -121,6 +121,13 @@ def configs(tier):
     # of A's transition; every action must still read the data of its own event
     for bvar in ('accept', 'notrans', 'condfalse', 'chain'):
         out.append(dict(kind='pair', bvar=bvar, states=['a', 'b'], rules=[]))
+    # several instances of ONE FSM class, some with external conditions / actions given to the
+    # constructor: every instance follows its own
+    for ext in ((0,), (1,), (2,), (0, 2), (0, 1, 2), ()):
+        for what in ('cond', 'enter', 'exit', 'all'):
+            if not ext and what != 'all':
+                continue
+            out.append(dict(kind='siblings', ext=ext, what=what, states=['a', 'b'], rules=[]))
     # chain through a zero-length timer
     for tev in ('nx', 'goto_c', 'no'):
         for dur in (0, -1, '0s'):
@@ -608,10 +615,102 @@ def cfg_key(cfg):
     return repr(sorted((k, repr(v)) for k, v in cfg.items()))
 
 
+class Sib(edzed.FSM):
+    STATES = ['a', 'b']
+    EVENTS = [('e', 'a', 'b'), ('e', 'b', 'a')]
+
+
+def run_siblings(cfg, hist):
+    """
+    Three instances of class Sib created in order 0, 1, 2; those in cfg['ext'] get external
+    functions: cond_e (accepts every second call), enter_b, exit_b (log).  hist: indexes of the
+    instances receiving event 'e'.
+    """
+    info = {'viol': [], 'steps': []}
+    calls = []
+    with Sim() as sim:
+        blocks = []
+        condcnt = {}
+        for i in range(3):
+            kw = {}
+            if i in cfg['ext']:
+                if cfg['what'] in ('cond', 'all'):
+                    def cond(i=i):
+                        condcnt[i] = condcnt.get(i, 0) + 1
+                        calls.append((i, 'cond'))
+                        return condcnt[i] % 2 == 0
+                    kw['cond_e'] = cond
+                if cfg['what'] in ('enter', 'all'):
+                    kw['enter_b'] = lambda i=i: calls.append((i, 'enter_b'))
+                if cfg['what'] in ('exit', 'all'):
+                    kw['exit_b'] = lambda i=i: calls.append((i, 'exit_b'))
+            blocks.append(Sib(f'sib{i}', **kw))
+        ref = ['a', 'a', 'a']
+        refcnt = {}
+
+        async def driver():
+            task = asyncio.create_task(sim.circuit.run_forever())
+            try:
+                await sim.circuit.wait_init()
+            except Exception as err:    # pylint: disable=broad-except
+                info['viol'].append(('start-failed', repr(err)))
+                info['dead'] = True
+                return
+            if calls:
+                info['viol'].append(('foreign-action-called', f"during start-up: {calls}"))
+            for i in hist:
+                del calls[:]
+                exp_calls = []
+                accept = True
+                has = i in cfg['ext']
+                if has and cfg['what'] in ('cond', 'all'):
+                    refcnt[i] = refcnt.get(i, 0) + 1
+                    exp_calls.append((i, 'cond'))
+                    accept = refcnt[i] % 2 == 0
+                if accept:
+                    if ref[i] == 'b' and has and cfg['what'] in ('exit', 'all'):
+                        exp_calls.append((i, 'exit_b'))
+                    ref[i] = 'b' if ref[i] == 'a' else 'a'
+                    if ref[i] == 'b' and has and cfg['what'] in ('enter', 'all'):
+                        exp_calls.append((i, 'enter_b'))
+                try:
+                    ret = edzed.ExtEvent(blocks[i], 'e').send()
+                except Exception as err:    # pylint: disable=broad-except
+                    ret = err
+                info['steps'].append((i, repr(ret), [b.state for b in blocks]))
+                what = f"event 'e' to sib{i} (instances with external functions: {cfg['ext']}, {cfg['what']})"
+                if ret is not accept:
+                    info['viol'].append(('return-value', f"{what}: returned {ret!r}, expected {accept}"))
+                if [b.state for b in blocks] != ref:
+                    info['viol'].append(('wrong-state', f"{what}: states {[b.state for b in blocks]}, expected {ref}"))
+                if calls != exp_calls:
+                    info['viol'].append(('foreign-action-called' if any(c[0] != i for c in calls) else 'action-set',
+                                         f"{what}: external functions called {calls}, expected {exp_calls}"))
+                if sim.circuit.error is not None:
+                    info['viol'].append(('unexpected-error', repr(sim.circuit.error)))
+                    info['dead'] = True
+                    break
+            info['canon'] = (tuple(b.state for b in blocks), tuple(sorted((k, v % 2) for k, v in condcnt.items())))
+            await stop(sim.circuit)
+            del task
+        sim.run(driver())
+    return (None if info.get('dead') else info.get('canon')), info
+
+
 def run_config(cfg):
     acc = Acc()
     holder = {}
     key = cfg_key(cfg)
+    if cfg['kind'] == 'siblings':
+        def on_step2(hist, hc, sym, canon, info):
+            for sig, msg in info['viol']:
+                acc.violation(f"C03:{sig}:siblings", msg, cfg=cfg, detail={'history': list(hist)})
+            acc.outcome((cfg['ext'], cfg['what'], hc, sym, repr(info['steps'][-1:])))
+        res = bfs(lambda h: run_siblings(cfg, h), [0, 1, 2], acc, max_depth=14, on_step=on_step2)
+        acc.count('graphs_closed' if res['closed'] else 'graphs_open')
+        if not res['closed'] and not acc.violations:
+            acc.violation("C03:graph-did-not-close:siblings", str(res), cfg=cfg)
+        return acc
 
     def on_step(hist, hc, sym, canon, info):
         for sig, msg in info['viol']:
